@@ -489,6 +489,7 @@ func runC17(args []string) int {
 	n := argInt(args, "--n", 200)
 	ndiff := argInt(args, "--diffs", 150)
 	nsrv := argInt(args, "--servers", 30)
+	nbb := argInt(args, "--bitbucket", 60)
 	seed := seedFromEnv()
 	r := rand.New(rand.NewSource(seed))
 	rep := newReport("C17", seed)
@@ -653,6 +654,9 @@ func runC17(args []string) int {
 
 	// ---- C. real reporters against fake APIs --------------------------------------------------------
 	c17Servers(r, rep, cw, caseID, nsrv)
+
+	// ---- D. BitBucket's own reconciliation -------------------------------------------------------------
+	c17BitBucket(r, rep, cw, caseID+nsrv, nbb)
 
 	cw.flush()
 	rep.CaseFiles = cw.files
